@@ -426,7 +426,7 @@ fn run_inner(case: &Case, reverse: bool, recorded: &mut BTreeSet<(usize, String)
     let mut rep = CaseReport::default();
     let (preset, event) = PRESETS[case.preset as usize % PRESETS.len()];
     let mut sb = Sandbox::new(Mode::Wrapper);
-    sb.step_timeout = std::time::Duration::from_secs(60);
+    sb.step_timeout = std::time::Duration::from_secs(180);
     let l = build_layout(&mut sb, case.layout);
     rep.class(format!("preset:{preset}"));
     rep.class(format!("layout:{}", case.layout % 7));
